@@ -125,6 +125,7 @@ pub fn run_campaigns(ctx: &RunCtx, campaigns: &[Campaign]) -> Result<Value, Fail
                             stream: "fuzz".to_string(),
                             reason,
                             case: json!({"target": target, "data": B(data)}),
+                            history: vec![],
                         })
                     }
                     None => inconclusive(&format!(
